@@ -145,7 +145,7 @@ MISC_UNWIND = [
     ("irc_ntop", r"for \(max_start", 9), ("irc_ntop", r"for \(pos = 0, ii = 0", 9), ("irc_ntop", r"APPEND\(", 2),
     ("strchr", r"", 41), ("ctype_init", r"token_chars\[ii\]", 32), ("ctype_init", r"hex_digits\[ii\]", 18),
     ("vsnprintf", r"while \(\*fmt\)", 14), ("vsnprintf", r"while \(\*s\)", 41), ("vp_unum", r"for \(i = 0; i < 20", 21), ("vp_unum", r"while \(v >= p10", 10), ("vp_unum", r"for \(i = 15", 17),
-    ("h_ntop_roundtrip", r".", 41), ("spec_parse_addr", r"for \(;;\)", 42), ("spec_parse_addr", r"k < maxlen", 41),
+    ("h_ntop_roundtrip", r".", 41), ("h_pton_cidr", r"", 10), ("spec_parse_addr", r"for \(;;\)", 42), ("spec_parse_addr", r"k < maxlen", 41),
     ("spec_parse_addr", r"i <= maxlen", 42),
 ]
 
@@ -202,6 +202,42 @@ def _c12_jobs(tier, seed):
 GENERATORS.append(_c12_jobs)
 
 
+def _c13_pton_jobs(tier, seed):
+    """irc_pton is anchored in C13 as well: plain-address shards (same harness as C12), CIDR and wildcard texts"""
+    out = []
+    plain = [(0x18, False), (0x66, False), (0x01, False), (0x80, False)] if tier == "quick" else [x for x in _c12_shards() if not x[1]][::8]
+    for zp, v4 in plain:
+        j = _c12_job(zp, (1 + (zp + seed) % 4) if tier == "quick" else None, v4, solver=("minisat" if tier == "quick" else "kissat"), core=True)
+        j["id"] = j["id"].replace("C12.roundtrip", "C13.pton_plain"); j["prop"] = "C13"
+        out.append(j)
+    for zp in ((0x18, 0xc0) if tier == "quick" else (0x00, 0x18, 0xc0, 0x7e, 0x81, 0xff)):
+        j = _c12_job(zp, 4 if tier == "quick" else None, False, solver=("minisat" if tier == "quick" else "kissat"), core=True)
+        j["id"] = "C13.pton_cidr.zp%02x%s" % (zp, ".d4" if tier == "quick" else ".full"); j["prop"] = "C13"; j["entry"] = "h_pton_cidr"
+        out.append(j)
+    j = _c12_job(0, None, False, solver="minisat", core=True)
+    j["id"] = "C13.pton_wild"; j["prop"] = "C13"; j["entry"] = "h_pton_wild"; j["defines"] = []
+    j["unwind_rules"] = MISC_UNWIND + [("h_pton_wild", r"", 9)]
+    out.append(j)
+    return out
+
+
+GENERATORS.append(_c13_pton_jobs)
+
+
+def _c09_addr_jobs(tier, seed):
+    """C09: 'an address text that denotes exactly the address the server announced' and that is a single word of
+    the line protocol (never starting with ':'): the printer shards with a leading zero run, under C09"""
+    out = []
+    for zp in (0xfe, 0x7f, 0xff, 0x03):
+        j = _c12_job(zp, 1 + (zp + seed) % 4, False, solver="minisat", core=True)
+        j["id"] = j["id"].replace("C12.roundtrip", "C09.addr_text"); j["prop"] = "C09"
+        out.append(j)
+    return out
+
+
+GENERATORS.append(_c09_addr_jobs)
+
+
 # =========================================================================== IAuth core / xquery (C01-C06, C10)
 IAUTH_SRCS = ["src/set.c", "src/bitset.c", "src/common.c", "modules/iauth_misc.c", "src/accumulators.c"]
 IAUTH_STUBS = ["stubs/env_iauth.c", NET, "stubs/printf_model.c", "stubs/strto_model.c", "stubs/fnmatch_nondet.c"]
@@ -215,7 +251,7 @@ IAUTH_RULES = [
     ("irc_pton", r"while \(ii < 8\) switch", 42), ("irc_pton_ip4", r"while \(1\) switch", 18),
     ("irc_ntop", r"for \(max_start", 9), ("irc_ntop", r"for \(pos = 0, ii = 0", 9), ("irc_ntop", r"APPEND\(", 2),
     ("vsnprintf", r"while \(\*fmt\)", 70), ("vsnprintf", r"while \(\*s\)", 81),
-    ("iauth_send", r"COLLECT\(", 70), ("iauth_x_query", r"COLLECT\(", 40), ("st_scan", r"while \(\*p == ' '", 24), ("st_scan", r"while \(st_digit", 24),
+    ("iauth_send", r"COLLECT\(", 70), ("iauth_send", r"for \(k = 0; k < 4", 5), ("iauth_x_query", r"COLLECT\(", 40), ("st_scan", r"while \(\*p == ' '", 24), ("st_scan", r"while \(st_digit", 24),
 ]
 
 
@@ -224,8 +260,9 @@ def IJ(id, prop, entry, remove, harness="harness/h_iauth_core.c", extra_props=()
     executable contracts (spec/iauth_model.h)"""
     extra = kw.pop("cbmc", [])
     base = list(IAUTH_UNWIND)
-    if "--unwind" in extra:          # a job-specific default bound replaces the generic one
-        i = base.index("--unwind"); del base[i:i + 2]
+    for opt in ("--unwind", "--object-bits"):      # a job-specific value replaces the generic one
+        if opt in extra:
+            i = base.index(opt); del base[i:i + 2]
     kw["cbmc"] = extra
     d = dict(id=id, prop=prop, cls="proof", srcs=IAUTH_SRCS, stubs=IAUTH_STUBS, harness=harness, entry=entry,
              remove_bodies=list(remove), late_stubs=TRAMP, replaced_models=list(remove),
@@ -267,12 +304,14 @@ SET_ASSUME = ["set.c is used through its contract (sorted map with disposal, spe
 IJ("C10.parse_registered", "C10", "h_parse_registered", ["iauth_send"] + SETM, assumptions=SET_ASSUME, functions=["parse_registered", "iauth_req_cleanup"], extra_props=("C01", "C07"), cbmc=TABLE_UNW, defines=["SET_MODEL_MAX=3"])
 IJ("C10.parse_disconnect", "C10", "h_parse_registered", ["iauth_send"] + SETM, assumptions=SET_ASSUME, functions=["parse_disconnect", "iauth_req_cleanup"], defines=["DISCONNECT", "SET_MODEL_MAX=3"],
    extra_props=("C01",), cbmc=TABLE_UNW)
+IJ("C10.collect_stats", "C10", "h_collect_stats", ["iauth_send"] + SETM, assumptions=SET_ASSUME, functions=["iauth_collect_stats"], cbmc=TABLE_UNW, defines=["SET_MODEL_MAX=3"])
+IJ("C04.serial_fresh", "C04", "h_serial_fresh", ["iauth_send"] + SETM, assumptions=SET_ASSUME, functions=["parse_new_client"], cbmc=TABLE_UNW, defines=["SET_MODEL_MAX=3"], timeout=1500)
 IJ("C10.parse_new_client", "C10", "h_parse_new_client", ["iauth_send"] + SETM, assumptions=SET_ASSUME, functions=["parse_new_client", "iauth_req_cleanup"],
    extra_props=("C01", "C04", "C07"), cbmc=TABLE_UNW, timeout=1500, defines=["SET_MODEL_MAX=3"])
 
 XQ_CALLEES = ["iauth_validate_request", "iauth_routing", "iauth_kill", "iauth_challenge", "iauth_user_mode", "iauth_check_request",
               "iauth_x_query", "iauth_send"] + SETM
-XQ_UNW = ["--unwind", "5", "--unwindset", "bytes_eq.0:513,strcmp.0:5,strncmp.0:8,memcmp.0:70,account_is.0:66,iauth_xquery_set_account.0:66,iauth_xquery_set_account.1:67,memset.0:60"]
+XQ_UNW = ["--unwind", "5", "--unwindset", "strlen.0:82,strcmp.0:5,strncmp.0:8,memcmp.0:70,account_is.0:66,iauth_xquery_set_account.0:66,iauth_xquery_set_account.1:67,memset.0:60"]
 PROPS["C04"] = dict(level="model_checking", explanation="reply routing: validate/routing round trip and the empty frame of non-awaited replies")
 PROPS["C05"] = dict(level="model_checking", explanation="verdict content: per reply kind postconditions of the reply handler and of iauth_accept")
 IJ("C03.xq_x_reply", "C03", "h_xq_x_reply", XQ_CALLEES, harness="harness/h_iauth_xq.c", functions=["iauth_xquery_x_reply", "iauth_xquery_x_unlinked", "iauth_xquery_set_account", "iauth_xquery_unref"],
@@ -285,9 +324,26 @@ IJ("C06.xq_check", "C06", "h_xq_check", XQ_CALLEES, harness="harness/h_iauth_xq.
 
 PROPS["C09"] = dict(level="model_checking", explanation="single formatter iauth_send proved against the line format with the printf model; address text via C12; log channel separation in C18/C09.log")
 IO_UNW = ["--unwind", "14", "--unwindset", "put_str.0:41,fputs.0:130,iauth_send.0:5,memset.0:600"]
+C09_RULES = [("h_send", r"i < 128", 129), ("h_send", r"i < (40|IRC_NTOP_MAX)", 42), ("h_send", r"i < (11|12|6);", 13), ("h_send", r"f\[i\]", 14), ("h_send", r"i = (3|ADDR_MAX)", 42)]
 for _k in range(22):
+    if _k == 12:
+        continue
     IJ("C09.send.fmt%02d" % _k, "C09", "h_send", SETM, harness="harness/h_iauth_io.c", stubs=IAUTH_STUBS + ["stubs/stdout_model.c"], functions=["iauth_send"],
-       cbmc=IO_UNW, unwind_rules=[("h_send", r"i < 128", 129), ("h_send", r"i < (40|IRC_NTOP_MAX)", 42), ("h_send", r"i < (11|12|6);", 13), ("h_send", r"f\[i\]", 14)], cls="bounded", bound="string arguments of <= 11 bytes; the <id> <address> <port> prefix fully symbolic (address text <= 8 bytes) with format d, one concrete prefix with the other client-directed formats; one job per format string used by the daemon", defines=["KIND=%d" % _k, "ADDR_MAX=8"] + (["CONCRETE_PREFIX"] if _k < 12 else []), timeout=2400, cost=(40 if _k == 12 else 4), solver=("kissat" if _k == 12 else "minisat"))
+       cbmc=IO_UNW, unwind_rules=C09_RULES, cls="bounded",
+       bound="string arguments of <= 11 bytes; one concrete <id> <address> <port> prefix with the client-directed formats (the prefix itself: jobs C09.send.prefix.*)",
+       defines=["KIND=%d" % _k, "ADDR_MAX=8"] + (["CONCRETE_PREFIX"] if _k < 12 else []), timeout=2400, cost=4)
+for _sp, _nm in ((1, "id"), (2, "port"), (3, "addr")):
+    IJ("C09.send.prefix.%s" % _nm, "C09", "h_send", SETM, harness="harness/h_iauth_io.c", stubs=IAUTH_STUBS + ["stubs/stdout_model.c"], functions=["iauth_send"],
+       cbmc=IO_UNW, unwind_rules=C09_RULES, cls="bounded", tiers=("quick", "thorough"),
+       bound="format d; the %s of the prefix symbolic (every int id / every port / every address text of <= 8 bytes), the other two concrete" % _nm,
+       defines=["KIND=12", "ADDR_MAX=8", "SYM_PART=%d" % _sp], timeout=2400, cost=20, solver="kissat")
+IJ("C09.send.prefix.all", "C09", "h_send", SETM, harness="harness/h_iauth_io.c", stubs=IAUTH_STUBS + ["stubs/stdout_model.c"], functions=["iauth_send"],
+   cbmc=IO_UNW, unwind_rules=C09_RULES, cls="bounded", tiers=("thorough",), bound="format d; id, port and address text (<= 8 bytes) symbolic together",
+   defines=["KIND=12", "ADDR_MAX=8"], timeout=7200, cost=60, solver="kissat")
+for _p in ("C08", "C09"):
+    IJ(_p + ".send_overlong", _p, "h_send_overlong", SETM, harness="harness/h_iauth_io.c", stubs=IAUTH_STUBS + ["stubs/stdout_model.c"], functions=["iauth_send"],
+       cbmc=["--unwind", "6", "--unwindset", "fputs.0:1201,memset.0:600"], unwind_rules=[("h_send_overlong", r"", 1502), ("vsnprintf", r"while \(\*s\)", 1502)],
+       cls="bounded", bound="one concrete 1500-byte argument (positions concrete)", timeout=1800, cost=6)
 IJ("C04.routing_roundtrip", "C04", "h_routing_roundtrip", SETM, harness="harness/h_iauth_io.c", stubs=IAUTH_STUBS + ["stubs/stdout_model.c"],
    functions=["iauth_routing", "iauth_validate_request"], cbmc=IO_UNW, assumptions=SET_ASSUME + ["S2 strtol/strtoul are CBMC's library models"], timeout=1800, cost=10)
 IJ("C04.validate_any", "C04", "h_validate_any", SETM, harness="harness/h_iauth_io.c", stubs=IAUTH_STUBS + ["stubs/stdout_model.c"],
@@ -311,7 +367,9 @@ def _c08_jobs(tier, seed):
              unwind_rules=rules, unwind_rules_optional=True, functions=["iauth_read"],
              assumptions=SET_ASSUME + ["S3 evbuffer_read/evbuffer_readln by contract: a fresh NUL-terminated line without newline, any content"],
              timeout=3000, cost=30, mem=20)
-    return [d]
+    d2 = dict(d); d2["id"] = "C08.read_two_lines"; d2["entry"] = "h_read_two_lines"; d2["bound"] = "two concrete lines in one read: junk for an unknown id, then a hurry-up for the live id"
+    d3 = dict(d2); d3["id"] = "C07.read_two_lines"; d3["prop"] = "C07"
+    return [d, d2, d3]
 
 
 GENERATORS.append(_c08_jobs)
@@ -331,18 +389,44 @@ IJ("C11.class_assign", "C11", "h_class_assign", ["iauth_class_rule_check", "iaut
 PROPS["C20"] = dict(level="model_checking", explanation="real module.c over every dependency matrix of MODS stub modules and every listing; loader by model (S4), module table by the set contract")
 
 
-def _c20_jobs(tier, seed):
-    m = 3 if tier == "quick" else 4
-    return [dict(id="C20.graph.M%d" % m, prop="C20", cls="bounded", bound="%d stub modules, every dependency matrix (2^%d graphs), 1-2 modules named in the configuration in any order" % (m, m * m),
-                 srcs=["src/common.c"], stubs=["stubs/printf_model.c"], harness="harness/h_module.c", entry="h_module_graph",
-                 defines=["MODS=%d" % m, "SET_MODEL_MAX=%d" % (m + 1)], checks=["ptr"],
-
+def _c20_phase_jobs(tier, seed):
+    out = []
+    for m in ((3,) if tier == "quick" else (3, 4)):
+        for e, fns in (("h_module_postinit", ["module_load_list", "module_dfs", "module_get"]), ("h_module_unload", ["module_close_all", "module_cleanup", "const_string_vector_remove", "module_get"])):
+            out.append(dict(id="C20.%s.M%d" % (e[9:], m), prop="C20", cls="bounded",
+                 bound="%d loaded stub modules, every dependency matrix (2^%d graphs incl. cycles and self loops)%s" % (m, m * m, "" if e == "h_module_postinit" else " that is acyclic"),
+                 srcs=["src/common.c"], stubs=["stubs/printf_model.c"], harness="harness/h_module.c", entry=e,
+                 defines=["MODS=%d" % m], checks=["ptr"], remove_bodies=["xmalloc", "xrealloc", "module_get"], late_stubs=["stubs/xmalloc_small.c", "stubs/tramp_module.c"],
                  cbmc=["--unwind", str(m + 2), "--unwinding-assertions", "--object-bits", "10", "--no-malloc-may-fail",
-                       "--unwindset", "dispose:2,module_cleanup:2,strcasecmp.0:4,strlen.0:4,strcpy.0:4,vsnprintf.0:12,vsnprintf.1:6,const_string_vector_remove.0:%d" % (2 * m + 2)], solver="kissat",
+                       "--unwindset", "dispose:2,module_cleanup:2,strcasecmp.0:4,strlen.0:4,strcpy.0:4,vsnprintf.0:12,vsnprintf.1:6,const_string_vector_remove.0:%d" % (2 * m + 2)],
+                 functions=fns, assumptions=["S4 dlsym by model (stub modules logging post-init / destructor events)",
+                              "module table through the set contract instantiated for the keys m0..m3 (array of slots), discharged for set.c in C19"],
+                 timeout=2400, mem=16, cost=20))
+    return out
+
+
+GENERATORS.append(_c20_phase_jobs)
+
+
+def _c20_jobs(tier, seed):
+    if tier == "quick":
+        return []
+    m = 3
+    lists = [(1, a, 0) for a in range(m)] + [(2, a, b) for a in range(m) for b in range(m) if a != b]
+    out = []
+    for (n, a, b) in lists:
+        out.append(dict(id="C20.graph.M%d.list%s" % (m, ("%d" % a) if n == 1 else ("%d%d" % (a, b))), prop="C20", cls="bounded",
+                 bound="%d stub modules, every dependency matrix (2^%d graphs incl. cycles and self loops), any subset loadable; configuration lists %s" % (m, m * m, ("m%d" % a) if n == 1 else ("m%d, m%d" % (a, b))),
+                 srcs=["src/common.c"], stubs=["stubs/printf_model.c"], harness="harness/h_module.c", entry="h_module_graph",
+                 defines=["MODS=%d" % m, "LIST_N=%d" % n, "LIST_0=%d" % a, "LIST_1=%d" % b], checks=["ptr"],
+                 remove_bodies=["xmalloc", "xrealloc"], late_stubs=["stubs/xmalloc_small.c"],
+                 cbmc=["--unwind", str(m + 2), "--unwinding-assertions", "--object-bits", "10", "--no-malloc-may-fail",
+                       "--unwindset", "dispose:2,module_cleanup:2,strcasecmp.0:4,strlen.0:4,strcpy.0:4,vsnprintf.0:12,vsnprintf.1:6,const_string_vector_remove.0:%d" % (2 * m + 2)],
                  functions=["module_load_list", "module_load", "module_depends", "module_dfs", "module_close_all", "module_cleanup", "module_get", "const_string_vector_remove"],
                  assumptions=["S4 dlopen/dlsym/dlclose by model: stub modules whose constructors call the real module_depends",
-                              "module table through the set contract (spec/set_model.h), discharged for set.c in C19"],
-                 timeout=3000, mem=20, cost=50)]
+                              "module table through the set contract instantiated for the keys m0..m3 (array of slots), discharged for set.c in C19"],
+                 timeout=3000, mem=16, cost=50))
+    return out
 
 
 GENERATORS.append(_c20_jobs)
@@ -354,7 +438,7 @@ CFG_RM = []
 
 def CJ(id, prop, entry, remove=(), extra_props=(), **kw):
     d = dict(id=id, prop=prop, cls="bounded", srcs=["src/common.c"], stubs=CFG_STUBS, harness="harness/h_config.c", entry=entry,
-             remove_bodies=CFG_RM + list(remove), late_stubs=["stubs/tramp_config.c"], checks=["ptr", "shift"], solver="kissat",
+             remove_bodies=CFG_RM + list(remove), late_stubs=["stubs/tramp_config.c"], checks=["ptr", "shift"], solver="kissat", fp_valueset=True,
              cbmc=["--unwind", "10", "--unwinding-assertions", "--object-bits", "10", "--no-malloc-may-fail"] + kw.pop("cbmc", []),
              unwind_rules=[("ctype_init", r"token_chars\[ii\]", 32), ("ctype_init", r"hex_digits\[ii\]", 18)], unwind_rules_optional=True,
              timeout=1800, cost=5, assumptions=["set.c through its contract (spec/set_model.h, C19)", "longjmp never returns; setjmp modelled by its two kinds of return"])
@@ -368,38 +452,55 @@ def CJ(id, prop, entry, remove=(), extra_props=(), **kw):
 PROPS["C14"] = dict(level="model_checking", explanation="tokenizer memory safety on every buffer up to the stated length; conf_read's control flow: no merge, no notification on any error return")
 PROPS["C15"] = dict(level="model_checking", explanation="per node kind: value after load, hook exactly on change (strings typed, lists), ownership of moved host/service pairs")
 PROPS["C16"] = dict(level="model_checking", explanation="typed value parsers against reference readings; quoted strings byte for byte; bounded lengths; grammar-level for-all over renderings is NOT decided")
+IJ("C06.xq_password", "C06", "h_xq_password", XQ_CALLEES + ["iauth_xquery_check"], harness="harness/h_iauth_xq.c", functions=["iauth_xquery_password", "iauth_xquery_check_password"],
+   extra_props=("C02",), cbmc=["--unwind", "4", "--unwindset", "model_x_query.0:13,model_x_query.1:12,strcmp.0:5,strchr.0:13,strncpy.0:513,spec_pw_shape.0:13,spec_pw_shape.1:13,spec_pw_shape.2:13,iauth_xquery_check_password.0:13,iauth_xquery_check_password.1:13,iauth_xquery_check_password.2:13,iauth_xquery_check_password.3:13,h_xq_password.0:13"],
+   unwind_rules=[("iauth_xquery_password", r"for \(ii = 0", 3)], assumptions=SET_ASSUME, bound="service table of 2 slots, password text of <= 10 bytes", cls="bounded", timeout=2400, cost=10, defines=["NSRV=2"])
 CJ("C16.typed_values.len7", "C16", "h_typed_values", functions=["conf_parse_boolean", "conf_parse_interval", "conf_parse_volume"], bound="value text of <= 7 bytes",
    cbmc=["--unwindset", "strcmp.0:10"])
 CJ("C16.string_value.len7", "C16", "h_string_value", functions=["conf_parse_string_value"], extra_props=("C15",), bound="value text of <= 7 bytes", cbmc=["--unwindset", "strcmp.0:10,memcmp.0:10"])
 CJ("C15.string_list.len3", "C15", "h_string_list_value", functions=["conf_set_string_list_value"], extra_props=("C16",), bound="lists of <= 3 one-byte items")
 CJ("C14.conf_read", "C14", "h_conf_read", remove=["conf_read_file", "conf_parse_entry", "conf_replace_value"], functions=["conf_read"], extra_props=("C15",),
    cls="proof", bound="")
-CJ("C14.parse_string.len6", "C14", "h_parse_string", functions=["conf_parse_string", "conf_parse_whitespace"], extra_props=("C16",), bound="file buffers of <= 6 bytes",
-   cbmc=["--unwindset", "memset.0:40"], defines=["TOK_LEN=6"], mem=24, solver="minisat")
+CJ("C14.parse_string.len8", "C14", "h_parse_string", remove=["xmalloc", "xrealloc"], late_stubs=["stubs/tramp_config.c", "stubs/xmalloc_small.c"],
+   functions=["conf_parse_string", "conf_parse_whitespace"], extra_props=("C16",), bound="file buffers of <= 8 bytes",
+   cbmc=["--unwindset", "memset.0:40"], defines=["TOK_LEN=8"], mem=16, solver="minisat")
 CJ("C14.parse_whitespace.len8", "C14", "h_parse_whitespace", functions=["conf_parse_whitespace"], extra_props=("C16",), bound="file buffers of <= 8 bytes")
 CJ("C15.replace_inaddr", "C15", "h_replace_inaddr", functions=["conf_replace_value"], extra_props=("C14",), bound="", cls="proof",
    cbmc=["--unwind", "4", "--unwindset", "strcasecmp.0:4,conf_replace_value:1,conf_object_cleanup:2,model_set_clear:2,sm_dispose:2,set_clear:2"])
 
 PROPS["C17"] = dict(level="model_checking", explanation="service-table rebuild executed for every small section x previous table (exhaustive enumeration); merge-side hook delivery: known finding F13")
-IJ("C17.xq_services_changed", "C17", "h_xq_services_changed", ["iauth_send", "iauth_check_request"] + SETM, harness="harness/h_iauth_xq.c",
-   functions=["iauth_xquery_services_changed", "iauth_xquery_config_service", "iauth_xquery_unref"], cls="bounded",
-   bound="every section of 0-2 services (4 protocols or an unknown word) x every previous table of 0-2 slots (hole / sA / sB / sC, configured or only referenced): exhaustive concrete enumeration",
-   cbmc=["--unwind", "7", "--object-bits", "16", "--unwindset", "strcmp.0:4,strcasecmp.0:12,strlen.0:4,strcpy.0:4,memset.0:120"], assumptions=SET_ASSUME, timeout=2400, cost=8, mem=24)
+def _c17_sections():
+    types = (0, 1, 2, 3, 4)
+    return [(0, 0, 0)] + [(1, t, 0) for t in types] + [(2, t, u) for t in types for u in types]
+
+
+C17_KW = dict(harness="harness/h_iauth_xq.c", functions=["iauth_xquery_services_changed", "iauth_xquery_config_service", "iauth_xquery_unref"], cls="bounded",
+              cbmc=["--unwind", "7", "--object-bits", "14", "--unwindset", "strcmp.0:4,strcasecmp.0:12,strlen.0:4,strcpy.0:4,memset.0:120"], assumptions=SET_ASSUME, mem=16)
+for _q in (0, 1):
+    IJ("C17.xq_services_changed.quick.part%d" % _q, "C17", "h_xq_services_changed", ["iauth_send", "iauth_check_request"] + SETM, tiers=("quick",),
+       bound="8 hand-picked (section, previous table) pairs, 4 per job: fresh start, additions, removal, in-place protocol change, reuse of a freed slot, still-awaited leftovers, unknown protocol word",
+       defines=["NSRV=2", "SVC_QUICK=%d" % _q], timeout=2400, cost=8, **C17_KW)
+for (_n, _t0, _t1) in _c17_sections():
+    IJ("C17.xq_services_changed.n%dt%d%d" % (_n, _t0, _t1), "C17", "h_xq_services_changed", ["iauth_send", "iauth_check_request"] + SETM, tiers=("thorough",),
+       bound="one section (%d services, protocols %d/%d; 4 = unknown word) x every previous table of 0-2 slots (hole / sA / sB / sC, configured or only referenced): 111 concrete cases" % (_n, _t0, _t1),
+       defines=["NSRV=2", "SEC_N=%d" % _n, "SEC_T0=%d" % _t0, "SEC_T1=%d" % _t1], timeout=14000, cost=8, **C17_KW)
+
 # =========================================================================== log.c (C18, C09)
 PROPS["C18"] = dict(level="model_checking", explanation="severity-set parser against the mathematical set for every 1-2 item expression; message fan-out per destination; rescan not under contract")
 LOG_STUBS = ["stubs/tramp_set.c", "stubs/printf_model.c", "stubs/strto_model.c", "stubs/stdout_model.c"]
 def _log_jobs(tier, seed):
     out = []
-    for _e, _fn, _un in (("h_log_sevset", ["log_parse_type_sevset"], "strcpy.0:24,h_log_sevset.0:8,h_log_sevset.1:8,h_log_sevset.2:8,h_log_sevset.3:8,strcasecmp.0:9,strchr.0:24,strcmp.0:4,strlen.0:24,put.0:9,memset.0:300,strdup.0:24"),
+    for _e, _fn, _un in (("h_log_sevset", ["log_parse_type_sevset"], "strcpy.0:24,h_log_sevset.0:11,h_log_sevset.1:11,h_log_sevset.2:11,h_log_sevset.3:11,strcasecmp.0:9,strchr.0:24,strcmp.0:4,strlen.0:24,put.0:9,memset.0:300,strdup.0:24"),
                          ("h_log_message", ["log_vmessage", "log_message"], "vsnprintf.0:3,vsnprintf.1:6,memset.0:64")):
         for _p in (("C18",) if _e == "h_log_sevset" else ("C18", "C09")):
             sl = (_e == "h_log_sevset" and tier == "quick")
-            out.append(dict(id="%s.%s%s" % (_p, _e[2:], ".slice" if sl else ""), prop=_p, cls="bounded" if _e == "h_log_sevset" else "proof",
-              bound=("one-item expressions exhaustively (6 operators x 7 names), two-item expressions for a slice of name pairs (260 concrete cases)" if sl else
+            for o0 in ((0, 1) if sl else range(6) if _e == "h_log_sevset" else (None,)):
+              out.append(dict(id="%s.%s%s%s" % (_p, _e[2:], ".quick" if sl else "", (".%s%d" % ("part" if sl else "op", o0)) if o0 is not None else ""), prop=_p, cls="bounded" if _e == "h_log_sevset" else "proof",
+              bound=("20 hand-picked expressions (every operator, every name, list forms) - 10 per job" if sl else
                      "every expression of 1-2 items over all 6 operators and 7 names, plus * and the dot-less form: 1808 concrete cases, exhaustive") if _e == "h_log_sevset" else "",
               srcs=["src/common.c", "src/config.c"], stubs=LOG_STUBS, harness="harness/h_log.c", entry=_e, checks=["ptr", "shift"],
-              defines=(["SEVSET_SLICE"] if sl else []),
-              cbmc=["--unwind", "8", "--unwinding-assertions", "--object-bits", "14", "--no-malloc-may-fail", "--unwindset", _un],
+              defines=(["SEV_QUICK=%d" % o0] if sl else (["SEV_O0=%d" % o0] if o0 is not None else [])),
+              cbmc=["--unwind", "11", "--unwinding-assertions", "--object-bits", "14", "--no-malloc-may-fail", "--unwindset", _un],
               functions=_fn, assumptions=["set.c through its contract (spec/set_model.h, C19)", "S1 stdio: only the target stream of a write is modelled"],
               timeout=(2400 if tier == "quick" else 14000), cost=5, mem=24))
     return out
